@@ -322,6 +322,86 @@ class OracleGeo:
             out.append(d)
         return out
 
+    # ------------------------------------------------- surface normal at a point
+    def normal_at(self, p, side, guard=1e-6):
+        """True unit normal (GLOBAL frame) of the surface the point p lies on.
+
+        `side` is a nearby point strictly inside a volume adjacent to that surface (it selects
+        the chain of daughter universes to descend).  At every level of that chain every surface
+        of the unit (every grid plane of an array) is evaluated at the point LOCAL to that level;
+        the surface with the smallest |f|/|grad f| is the one p is on; its gradient (central
+        differences of the quadric value, so independent of any hand-written normal formula) is
+        rotated up to the global frame with the daughter-to-parent matrices of the chain.
+        Returns dict(valid, n, dist, level, why).  Invalid when p is not within 1e-5 (relative) of
+        any surface, or when a second, non-parallel surface is also within 100*guard (edge/corner),
+        or when `side` cannot be located."""
+        P = np.asarray(p, float).copy()
+        S = np.asarray(side, float).copy()
+        Rup = np.eye(3)
+        uid, level = 0, 0
+        cands = []
+        while True:
+            u = self.universes[uid]
+            scale = max(1.0, float(np.abs(P).max()))
+            if u["type"] == "rectarray":
+                cell = []
+                for ax, g in enumerate(u["grid"]):
+                    e = np.zeros(3)
+                    e[ax] = 1.0
+                    for gv in g[1:-1]:
+                        cands.append((abs(P[ax] - gv) / scale, Rup @ e, level))
+                    if S[ax] <= g[0] or S[ax] >= g[-1]:
+                        return dict(valid=False, why="side-outside-array")
+                    cell.append(int(np.clip(np.searchsorted(g, S[ax], side="right") - 1, 0, len(g) - 2)))
+                nx, ny, nz = u["dims"]
+                daughter = u["daughters"][(cell[0] * ny + cell[1]) * nz + cell[2]]
+            else:
+                for st, d in u["surfaces"]:
+                    f, g = surf_eval(st, d, P[None, :])
+                    h = 1e-4 * scale
+                    grad = np.zeros(3)
+                    for ax in range(3):
+                        dp = np.zeros(3)
+                        dp[ax] = h
+                        grad[ax] = (surf_eval(st, d, (P + dp)[None, :])[0][0]
+                                    - surf_eval(st, d, (P - dp)[None, :])[0][0]) / (2 * h)
+                    gn = np.linalg.norm(grad)
+                    if gn < _TINY:
+                        continue
+                    cands.append((abs(f[0]) / max(g[0], _TINY) / scale, Rup @ (grad / gn), level))
+                r = dict(valid=np.ones(1, bool), outside=np.zeros(1, bool), why=[""], detail=[None],
+                         path=[[]], name=[None], guard=guard)
+                gabs = guard * np.maximum(1.0, np.abs(S[None, :]).max(axis=1))
+                groups = self._unit_volumes(uid, u, np.arange(1), S[None, :], gabs, r)
+                if not r["valid"][0] or not groups:
+                    return dict(valid=False, why="side-" + (r["why"][0] or "unlocated"))
+                daughter = groups[0][3]
+            if daughter is None:
+                break
+            d_uid, R, t = daughter
+            P = P - t
+            S = S - t
+            if R is not None:
+                P = P @ R
+                S = S @ R
+                Rup = Rup @ R
+            uid = d_uid
+            level += 1
+            if level > 64:
+                return dict(valid=False, why="too-deep")
+        if not cands:
+            return dict(valid=False, why="no-surface")
+        cands.sort(key=lambda c: c[0])
+        best = cands[0]
+        if best[0] > 1e-5:
+            return dict(valid=False, why="not-on-surface", dist=best[0])
+        for c in cands[1:]:
+            if c[0] > 100 * guard:
+                break
+            if abs(float(np.dot(c[1], best[1]))) < 1 - 1e-6:
+                return dict(valid=False, why="edge", dist=best[0])
+        return dict(valid=True, n=best[1] / np.linalg.norm(best[1]), dist=best[0], level=best[2], why="")
+
     def locate_labels(self, pts, guard=1e-6):
         """Deepest C++-style label per point (None where invalid)."""
         res = self.locate(pts, guard)
